@@ -43,6 +43,9 @@ pub struct Features {
     pub leaves: BTreeMap<String, Vec<LeafBatch>>,
     pub has_varwidth: bool,
     pub has_list: bool,
+    /// a leaf field with the structural-encoding=fullzip hint one of whose written arrays carries a
+    /// validity bitmap without any null in it
+    pub fullzip_allvalid_bitmap: bool,
 }
 
 fn count_fsl_items(a: &ArrayRef) -> (usize, usize) {
@@ -97,6 +100,15 @@ fn walk(a: &ArrayRef, path: String, mut layers: Vec<Layer>, out: &mut Vec<(Strin
     }
 }
 
+fn fullzip_allvalid(field: &arrow_schema::Field, a: &ArrayRef) -> bool {
+    match a.data_type() {
+        DataType::Struct(fs) => fs.iter().zip(a.as_struct().columns().iter()).any(|(f, c)| fullzip_allvalid(f, c)),
+        DataType::List(f) => fullzip_allvalid(f, a.as_list::<i32>().values()),
+        DataType::LargeList(f) => fullzip_allvalid(f, a.as_list::<i64>().values()),
+        _ => field.metadata().get("lance-encoding:structural-encoding").map(|v| v == "fullzip").unwrap_or(false) && a.len() > 0 && a.nulls().map(|n| n.null_count() == 0).unwrap_or(false),
+    }
+}
+
 fn has_list(dt: &DataType) -> bool {
     match dt {
         DataType::List(_) | DataType::LargeList(_) => true,
@@ -129,7 +141,8 @@ impl Features {
                 }
             }
         }
-        Features { version: case.version, leaves, has_varwidth: case.schema.fields().iter().any(|f| has_varwidth(f.data_type())), has_list: case.schema.fields().iter().any(|f| has_list(f.data_type())) }
+        Features { version: case.version, leaves, has_varwidth: case.schema.fields().iter().any(|f| has_varwidth(f.data_type())), has_list: case.schema.fields().iter().any(|f| has_list(f.data_type())),
+            fullzip_allvalid_bitmap: case.schema.fields().iter().enumerate().any(|(ci, f)| case.batches.iter().any(|b| b.num_rows() > 0 && fullzip_allvalid(f, b.column(ci)))) }
     }
     pub fn describe(&self) -> Value {
         json!(self
@@ -224,6 +237,9 @@ pub fn classify(f: &Features, fail: &Failure) -> Option<&'static str> {
     }
     // (C27 list_of_nullable_struct_repdef and allvalid_list_over_nullable_items were repaired in /repo
     //  (d90c193, acc257d): all stacks to depth 3 round-trip on one page, no predicate for them here)
+    if f.structural() && f.fullzip_allvalid_bitmap && fail.is_read {
+        return Some("Known_C25_fullzip_hint_allvalid_bitmap");
+    }
     if f.in_complex_all_null() {
         return Some("complex_all_null_page_rows_as_levels");
     }
